@@ -20,6 +20,20 @@ pub enum PersisterKind {
 
 impl PersisterKind {
     pub async fn append(&self, path: &str, bytes: &[u8]) -> Result<(), IggyError> {
+        #[cfg(feature = "iggy_verif")]
+        {
+            let result = match self {
+                PersisterKind::File(p) => p.append(path, bytes).await,
+                PersisterKind::FileWithSync(p) => p.append(path, bytes).await,
+                #[cfg(test)]
+                PersisterKind::Mock(p) => p.append(path, bytes).await,
+            };
+            if result.is_ok() {
+                crate::verif::fs_event("file_append", path).await;
+            }
+            return result;
+        }
+        #[cfg(not(feature = "iggy_verif"))]
         match self {
             PersisterKind::File(p) => p.append(path, bytes).await,
             PersisterKind::FileWithSync(p) => p.append(path, bytes).await,
@@ -29,6 +43,20 @@ impl PersisterKind {
     }
 
     pub async fn overwrite(&self, path: &str, bytes: &[u8]) -> Result<(), IggyError> {
+        #[cfg(feature = "iggy_verif")]
+        {
+            let result = match self {
+                PersisterKind::File(p) => p.overwrite(path, bytes).await,
+                PersisterKind::FileWithSync(p) => p.overwrite(path, bytes).await,
+                #[cfg(test)]
+                PersisterKind::Mock(p) => p.overwrite(path, bytes).await,
+            };
+            if result.is_ok() {
+                crate::verif::fs_event("file_overwrite", path).await;
+            }
+            return result;
+        }
+        #[cfg(not(feature = "iggy_verif"))]
         match self {
             PersisterKind::File(p) => p.overwrite(path, bytes).await,
             PersisterKind::FileWithSync(p) => p.overwrite(path, bytes).await,
@@ -38,6 +66,20 @@ impl PersisterKind {
     }
 
     pub async fn delete(&self, path: &str) -> Result<(), IggyError> {
+        #[cfg(feature = "iggy_verif")]
+        {
+            let result = match self {
+                PersisterKind::File(p) => p.delete(path).await,
+                PersisterKind::FileWithSync(p) => p.delete(path).await,
+                #[cfg(test)]
+                PersisterKind::Mock(p) => p.delete(path).await,
+            };
+            if result.is_ok() {
+                crate::verif::fs_event("file_delete", path).await;
+            }
+            return result;
+        }
+        #[cfg(not(feature = "iggy_verif"))]
         match self {
             PersisterKind::File(p) => p.delete(path).await,
             PersisterKind::FileWithSync(p) => p.delete(path).await,
